@@ -564,3 +564,82 @@ package otr3
 //@   ensures [C18.disconnect.event] (old(c.msgState) == encrypted ==> seclog(c) == evpush(old(seclog(c)), uint64(GoneInsecure))) && (old(c.msgState) != encrypted ==> seclog(c) == old(seclog(c)))
 //@   ensures [C08.disconnect.drop] c.ake == nil && c.keys.ourKeyID == 0 && c.keys.theirKeyID == 0 && c.keys.ourCurrentDHKeys.priv === nil && c.keys.ourPreviousDHKeys.priv === nil && c.smp.secret == nil && c.smp.state == nil
 //@   ensures [C08.disconnect.wipe] kmcWiped(addr(c.keys)) == old(kmcWiped(addr(c.keys))) + 1 && (old(c.ake) != nil ==> (akeWiped(old(c.ake)) == old(akeWiped(c.ake)) + 1 && akeKeysWiped(old(c.ake)) == old(akeKeysWiped(c.ake)) + 1))
+
+//@ func (*resendContext).later
+//@   requires r != nil
+//@   modifies r.messages.m, elems(r.messages.m)
+//@   ensures [C18.queue.append] !old(r.retransmitting) ==> len(r.messages.m) == len(old(r.messages.m)) + 1
+//@   ensures [C18.queue.skip] old(r.retransmitting) ==> r.messages.m === old(r.messages.m)
+//@ func (*resendContext).pending
+//@   requires r != nil
+//@   pure
+//@   ensures [C18.queue.pending] fresh(result) && len(result) == len(r.messages.m)
+//@ func (*resendContext).clear
+//@   requires r != nil
+//@   modifies r.messages.m
+//@   ensures [C18.queue.clear,C19.queue.clear] r.messages.m === nil
+
+//@ func (*Conversation).genDataMsgWithFlag
+//@   requires convOK(c)
+//@   modifies anything
+//@   preserves [C18.msgstate.gen,C04.send.norotate] c.msgState, c.theirKey, c.ake, c.version, c.theirInstanceTag, c.Policies, c.keys.ourKeyID, c.keys.theirKeyID, c.keys.ourCurrentDHKeys.pub, c.keys.ourCurrentDHKeys.priv, c.keys.ourPreviousDHKeys.pub, c.keys.ourPreviousDHKeys.priv, c.keys.theirCurrentDHPubKey, c.keys.theirPreviousDHPubKey, c.smp.state, c.sentRevealSig
+//@   ensures [C03.gen.requires.encrypted] result2 == nil ==> old(c.msgState) == encrypted
+//@   ensures [C03.gen.refuse] old(c.msgState) != encrypted ==> (result2 == errCannotSendUnencrypted && c.resend.messages.m === old(c.resend.messages.m))
+//@   ensures [C04.send.pair,C10.keyids] result2 == nil ==> (result0.senderKeyID == c.keys.ourKeyID - 1 && result0.recipientKeyID == c.keys.theirKeyID && result0.y == c.keys.ourCurrentDHKeys.pub && result0.flag == flag)
+//@   ensures [C10.ctr.start,C04.send.ctr] result2 == nil ==> be64arr(result0.topHalfCtr) != 0
+//@   ensures [C09.disclose.next] result2 == nil ==> (result0.oldMACKeys === old(c.keys.oldMACKeys) && len(c.keys.oldMACKeys) == 0)
+//@   ensures [C18.last.flag] result2 == nil ==> c.resend.mayRetransmit == noRetransmit
+//@   ensures result2 == nil ==> (result0.y != nil && len(result0.authenticator) == 20)
+
+//@ func (*Conversation).createSerializedDataMessage
+//@   requires convOK(c)
+//@   modifies anything
+//@   preserves [C18.msgstate.create] c.msgState, c.theirKey, c.ake, c.version, c.Policies, c.keys.ourKeyID, c.keys.theirKeyID, c.smp.state, c.sentRevealSig
+//@   ensures [C03.create.requires.encrypted] result2 == nil ==> old(c.msgState) == encrypted
+//@   ensures [C03.create.refuse] old(c.msgState) != encrypted ==> (result2 != nil && result0 === nil && c.resend.messages.m === old(c.resend.messages.m))
+//@   ensures result2 != nil ==> result0 === nil
+//@   ensures nonglobal(result0)
+
+//@ func (*Conversation).QueryMessage
+//@   requires c != nil
+//@   pure
+//@   ensures [C16.query.emit.fresh] fresh(result)
+//@   ensures [C16.query.emit,C10.query] len(result) >= 6 && result[0] == 63 && result[1] == 79 && result[2] == 84 && result[3] == 82 && result[4] == 118
+//@   ensures [C16.query.emit.v2] hasPol(c, allowV2) ==> result[5] == 50
+//@   ensures [C16.query.emit.v3only] (!hasPol(c, allowV2) && hasPol(c, allowV3)) ==> result[5] == 51
+//@   ensures [C16.query.emit.v23] (hasPol(c, allowV2) && hasPol(c, allowV3)) ==> (len(result) >= 7 && result[6] == 51)
+//@   ensures [C16.query.emit.none] (!hasPol(c, allowV2) && !hasPol(c, allowV3)) ==> result[5] == 63
+
+//@ func (*Conversation).withInjects
+//@   requires c != nil
+//@   modifies c.injections.messages, elems(vms)
+//@   ensures [C19.injections.flush] len(c.injections.messages) == 0
+//@   ensures len(result) == len(vms) + len(old(c.injections.messages))
+
+//@ func (*Conversation).sendMessageOnPlaintext
+//@   requires c != nil
+//@   modifies anything
+//@   preserves [C18.msgstate.sendplain] c.msgState, c.theirKey, c.ake, c.version, c.Policies, c.keys.ourKeyID, c.keys.theirKeyID
+//@   modifies msglog(c)
+//@   ensures [C03.plain.require.queue,C18.queue.fill] (hasPol(c, requireEncryption) && !old(c.resend.retransmitting)) ==> (result1 == nil && len(result0) == 1 && len(c.resend.messages.m) == len(old(c.resend.messages.m)) + 1 && c.resend.mayRetransmit == retransmitExact)
+//@   ensures [C03.plain.require.query] hasPol(c, requireEncryption) ==> (len(result0[0]) >= 6 && result0[0][0] == 63 && result0[0][1] == 79 && result0[0][2] == 84 && result0[0][3] == 82 && result0[0][4] == 118 && !sbaseSame(result0[0], message))
+//@   ensures [C18.send.plain] !hasPol(c, requireEncryption) ==> (result1 == nil && len(result0) == 1 && c.resend.messages.m === old(c.resend.messages.m))
+
+//@ func (*Conversation).sendMessageOnEncrypted
+//@   requires convOK(c)
+//@   modifies anything
+//@   preserves [C18.msgstate.sendenc] c.msgState, c.theirKey, c.ake, c.version, c.Policies, c.keys.ourKeyID, c.keys.theirKeyID
+//@   modifies msglog(c)
+//@   ensures [C03.enc.err] result1 != nil ==> result0 === nil
+
+//@ func (*Conversation).Send
+//@   requires convOK(c)
+//@   modifies anything
+//@   preserves [C18.msgstate.send] c.msgState, c.theirKey, c.ake, c.version, c.Policies, c.keys.ourKeyID, c.keys.theirKeyID
+//@   ensures [C18.send.finished,C03.send.finished] (hasPol(c, allowV2) || hasPol(c, allowV3)) && !c.debug && old(c.msgState) == finished ==> (result1 != nil && len(result0) == len(old(c.injections.messages)) && msglog(c) == evpush(old(msglog(c)), uint64(MessageEventConnectionEnded)) && c.resend.messages.m === old(c.resend.messages.m))
+//@   ensures [C16.disabled.send] (!hasPol(c, allowV2) && !hasPol(c, allowV3)) ==> (result1 == nil && len(result0) == 1 && len(result0[0]) == len(m) && c.resend.messages.m === old(c.resend.messages.m))
+//@   modifies msglog(c)
+
+//@ func (*Conversation).dump
+//@   opaque
+//@   pure
